@@ -114,8 +114,16 @@ def rule_sorts(ctx):
         v = printers.evaluate(fx, b).value
         t = printers.token_table(v) or {}
         tabs[ty] = t
+        # what is written for an item of each sort: its name, then the suffix of the sort (a table in place, a helper, one write or two)
+        from .. import leaves as _lvs
+        T_ = printers.flat(fx, b)
+        SORT_, NAME_ = _lvs.norm(("place", "self.0.sort")), _lvs.norm(("place", "self.0.name"))
         for s, suf in SUFFIX.items():
-            ctx.add("TAB-SIB", "%s:%s" % (ty, s.split("::")[1]), t.get(s) == "{}" + suf and v[1] == ("place", "self.0.sort") and _arm_args(v, s) == (("place", "self.0.name"),), ctx.site(b), "%s of sort %s is printed as name%s" % (ty, s, suf))
+            try:
+                text = T_.under(lambda c: (c[2] == s) if (c[:1] == ("arm",) and c[1] == SORT_) else sym.decide_bool(c))
+            except printers.Undecided:
+                text = None
+            ctx.add("TAB-SIB", "%s:%s" % (ty, s.split("::")[1]), text == [((), [("hole", "{}", NAME_), suf])], ctx.site(b), "%s of sort %s is printed as name%s" % (ty, s, suf), construct=text)
     occ = {"Sort::General": ("GeneralTerm", "GeneralTerm::Variable(_)", "{}_g", "GeneralTerm::FunctionConstant(_)", "{}_g"),
            "Sort::Integer": ("IntegerTerm", "IntegerTerm::Variable(_)", "{}_i", "IntegerTerm::FunctionConstant(_)", "{}_i"),
            "Sort::Symbol": ("SymbolicTerm", "SymbolicTerm::Variable(_)", "{}_s", "SymbolicTerm::FunctionConstant(_)", "{}_s")}
